@@ -1081,7 +1081,7 @@ theorem loop_pkt (cfg : Cfg) (resync : Bool) (f upTo last : Nat) (n : Node) (b :
 /-- on the repair path tryNode reports success only right after writing a beacon of the target round -/
 theorem loop_resync_reached (cfg : Cfg) (f upTo : Nat) :
     ∀ (items : List Item) (last : Nat) (n : Node), (loop cfg true f upTo last n items).2 = .reached →
-      ∃ b rest, (loop cfg true f upTo last n items).1.writes = ⟨b, b⟩ :: rest ∧ b.round = upTo ∧ cfg.verify b = true := by
+      ∃ b ws, (loop cfg true f upTo last n items).1.writes = (⟨b, b⟩ :: ws) ++ n.writes ∧ b.round = upTo ∧ cfg.verify b = true := by
   intro items
   induction items with
   | nil => intro last n h; simp [loop] at h
@@ -1099,16 +1099,32 @@ theorem loop_resync_reached (cfg : Cfg) (f upTo : Nat) :
         · simp [h1, h2] at h
         · by_cases h3 : roundOk cfg true f upTo last b = false
           · simp [h1, h2, h3] at h
-          · simp only [h1, h2, h3, hok, if_false, if_true] at h ⊢
-            by_cases heq : b.round = upTo
-            · simp only [heq, if_true]
-              exact ⟨b, n.writes, by simp [store1], heq, by simpa using h2⟩
-            · simp only [heq, if_false] at h ⊢
-              exact ih _ _ h
+          · by_cases heq : b.round = upTo
+            · have e : (if idOk = false then (n, TryRes.failed)
+                  else if cfg.verify b = false then (n, .failed)
+                  else if roundOk cfg true f upTo last b = false then (n, .failed)
+                  else if (store1 cfg true n b).2 = .ok then
+                    (if b.round = upTo then ((store1 cfg true n b).1, .reached) else loop cfg true f upTo b.round (store1 cfg true n b).1 rest)
+                  else if (store1 cfg true n b).2 = .already then (n, if b.round = upTo then .reached else .failed)
+                  else (n, .failed)) = ((store1 cfg true n b).1, .reached) := by
+                rw [if_neg h1, if_neg h2, if_neg h3, if_pos hok, if_pos heq]
+              rw [e]
+              exact ⟨b, [], by simp [store1], heq, by simpa using h2⟩
+            · have e : (if idOk = false then (n, TryRes.failed)
+                  else if cfg.verify b = false then (n, .failed)
+                  else if roundOk cfg true f upTo last b = false then (n, .failed)
+                  else if (store1 cfg true n b).2 = .ok then
+                    (if b.round = upTo then ((store1 cfg true n b).1, .reached) else loop cfg true f upTo b.round (store1 cfg true n b).1 rest)
+                  else if (store1 cfg true n b).2 = .already then (n, if b.round = upTo then .reached else .failed)
+                  else (n, .failed)) = loop cfg true f upTo b.round (store1 cfg true n b).1 rest := by
+                rw [if_neg h1, if_neg h2, if_neg h3, if_pos hok, if_neg heq]
+              rw [e] at h ⊢
+              obtain ⟨b2, ws, hw, hr, hv⟩ := ih _ _ h
+              exact ⟨b2, ws ++ [⟨b, b⟩], by rw [hw]; simp [store1], hr, hv⟩
 
 theorem tryNode_resync_reached (cfg : Cfg) (from_ upTo : Nat) (hf : from_ ≠ 0) (n : Node) (p : Peer)
     (h : (tryNode cfg from_ upTo n p).2 = .reached) :
-    ∃ b rest, (tryNode cfg from_ upTo n p).1.writes = ⟨b, b⟩ :: rest ∧ b.round = upTo ∧ cfg.verify b = true := by
+    ∃ b ws, (tryNode cfg from_ upTo n p).1.writes = (⟨b, b⟩ :: ws) ++ n.writes ∧ b.round = upTo ∧ cfg.verify b = true := by
   have hd : decide (from_ > 0) = true := by simp; omega
   unfold tryNode at h ⊢
   simp only [hd, if_neg hf] at h ⊢
@@ -1123,9 +1139,16 @@ theorem tryNode_resync_reached (cfg : Cfg) (from_ upTo : Nat) (hf : from_ ≠ 0)
         simp only [hs] at h ⊢
         exact loop_resync_reached cfg _ upTo items _ _ h
 
+theorem tryNode_writes (cfg : Cfg) (from_ upTo : Nat) (n : Node) (p : Peer) :
+    ∃ ws, (tryNode cfg from_ upTo n p).1.writes = ws ++ n.writes := by
+  have := tryNode_ind (cfg := cfg) (from_ := from_) (upTo := upTo) (P := fun _ m => NewWrites cfg n m)
+    (fun f _ => newWrites_inv cfg _ f upTo n) n p (newWrites_refl cfg n)
+  obtain ⟨ws, hw, _⟩ := this
+  exact ⟨ws, hw⟩
+
 theorem sync_resync_ok (cfg : Cfg) (self : String) (from_ upTo : Nat) (hf : from_ ≠ 0) :
     ∀ (ps : List Peer) (dead : Bool) (n : Node), (sync cfg self from_ upTo dead n ps).2.1 = .ok →
-      ∃ b rest, (sync cfg self from_ upTo dead n ps).1.writes = ⟨b, b⟩ :: rest ∧ b.round = upTo ∧ cfg.verify b = true := by
+      ∃ b ws, (sync cfg self from_ upTo dead n ps).1.writes = (⟨b, b⟩ :: ws) ++ n.writes ∧ b.round = upTo ∧ cfg.verify b = true := by
   intro ps
   induction ps with
   | nil => intro dead n h; simp [sync] at h
@@ -1141,10 +1164,17 @@ theorem sync_resync_ok (cfg : Cfg) (self : String) (from_ upTo : Nat) (hf : from
       · next hd =>
         rw [if_neg hd] at h
         simp only at h ⊢
+        obtain ⟨ws1, hw1⟩ := tryNode_writes cfg from_ upTo n p
         split
         · next hr => exact tryNode_resync_reached cfg from_ upTo hf n p hr
-        · next hr => rw [hr] at h; exact ih _ _ h
-        · next hr => rw [hr] at h; exact ih _ _ h
+        · next hr =>
+          rw [hr] at h
+          obtain ⟨b, ws, hw, hb, hv⟩ := ih _ _ h
+          exact ⟨b, ws ++ ws1, by rw [hw, hw1]; simp, hb, hv⟩
+        · next hr =>
+          rw [hr] at h
+          obtain ⟨b, ws, hw, hb, hv⟩ := ih _ _ h
+          exact ⟨b, ws ++ ws1, by rw [hw, hw1]; simp, hb, hv⟩
 
 /-- an honest peer ahead of `to`, reached before any stalling peer, completes a repair request `from_..to` -/
 def Reach (chain : Nat → Beacon) (self : String) (H : Nat) (ps : List Peer) : Prop :=
@@ -1225,11 +1255,11 @@ theorem c10_resync_retry (cfg : Cfg) (chain : Nat → Beacon) (self : String) (h
     (from_ to H : Nat) (hf : 1 ≤ from_) (hft : from_ ≤ to) (hH : to ≤ H) (n : Node) (ps1 ps2 : List Peer)
     (hr : RepairOK chain self H (ps1, ps2)) :
     let r := reSync cfg self from_ to false n ps1 ps2
-    r.2.1 = .ok ∧ r.2.2 = false ∧ ∃ b rest, r.1.writes = ⟨b, b⟩ :: rest ∧ b.round = to ∧ cfg.verify b = true := by
+    r.2.1 = .ok ∧ r.2.2 = false ∧ ∃ b ws, r.1.writes = (⟨b, b⟩ :: ws) ++ n.writes ∧ b.round = to ∧ cfg.verify b = true := by
   have h0 : from_ ≠ 0 := by omega
   have key : ∀ (m : Node) (ps : List Peer), (sync cfg self from_ to false m ps).2.1 = .ok →
       (sync cfg self from_ to false m ps).2.1.toRe = .ok ∧
-      ∃ b rest, (sync cfg self from_ to false m ps).1.writes = ⟨b, b⟩ :: rest ∧ b.round = to ∧ cfg.verify b = true :=
+      ∃ b ws, (sync cfg self from_ to false m ps).1.writes = (⟨b, b⟩ :: ws) ++ m.writes ∧ b.round = to ∧ cfg.verify b = true :=
     fun m ps h => ⟨by rw [h]; rfl, sync_resync_ok cfg self from_ to h0 ps false m h⟩
   unfold reSync
   simp only [h0, if_false]
@@ -1242,7 +1272,9 @@ theorem c10_resync_retry (cfg : Cfg) (chain : Nat → Beacon) (self : String) (h
     split
     · rw [hd1]
       obtain ⟨hok, hd⟩ := sync_resync_reach cfg chain self hround hcomp hle from_ to H hf hft hH ps2 h2 _
-      exact ⟨(key _ ps2 hok).1, hd, (key _ ps2 hok).2⟩
+      obtain ⟨b, ws, hw, hb, hv⟩ := (key _ ps2 hok).2
+      obtain ⟨ws1, hw1, _⟩ := (c10_only_verified cfg self n).1 from_ to false ps1
+      exact ⟨(key _ ps2 hok).1, hd, b, ws ++ ws1, by simp only; rw [hw, hw1]; simp, hb, hv⟩
     · next hnf =>
       have hok : (sync cfg self from_ to false n ps1).2.1 = .ok := by
         cases hres : (sync cfg self from_ to false n ps1).2.1 with
